@@ -1,2 +1,132 @@
-(* further model commands (keys, rounding, validate, stores); returns false when the command is unknown *)
-let handle (_ : string) : bool = false
+(* further model commands: keys (bind / keygen / keymap); s-expression syntax.
+   returns false when the command is unknown *)
+open Model
+
+let rec pos_of_int n =
+  if n = 1 then XH else if n land 1 = 0 then XO (pos_of_int (n lsr 1)) else XI (pos_of_int (n lsr 1))
+let z_of_int n = if n = 0 then Z0 else if n > 0 then Zpos (pos_of_int n) else Zneg (pos_of_int (-n))
+let rec int_of_pos = function XH -> 1 | XO p -> 2 * int_of_pos p | XI p -> 2 * int_of_pos p + 1
+let int_of_z = function Z0 -> 0 | Zpos p -> int_of_pos p | Zneg p -> - (int_of_pos p)
+let rec nat_of_int n = if n <= 0 then O else S (nat_of_int (n - 1))
+let rec int_of_nat = function O -> 0 | S n -> 1 + int_of_nat n
+
+(* ---- s-expressions *)
+type sx = A of string | L of sx list
+
+let tokenize (s : string) : string list =
+  let toks = ref [] and cur = Buffer.create 16 in
+  let flush () = if Buffer.length cur > 0 then (toks := Buffer.contents cur :: !toks; Buffer.clear cur) in
+  String.iter (fun c ->
+    match c with
+    | '(' | ')' -> flush (); toks := String.make 1 c :: !toks
+    | ' ' | '\t' | '\n' | '\r' -> flush ()
+    | _ -> Buffer.add_char cur c) s;
+  flush ();
+  List.rev !toks
+
+let rec parse_one = function
+  | "(" :: rest -> let (items, rest') = parse_list rest in (L items, rest')
+  | ")" :: _ -> failwith "unexpected )"
+  | a :: rest -> (A a, rest)
+  | [] -> failwith "unexpected end"
+and parse_list = function
+  | ")" :: rest -> ([], rest)
+  | [] -> failwith "missing )"
+  | toks -> let (x, rest) = parse_one toks in let (xs, rest') = parse_list rest in (x :: xs, rest')
+
+let parse_all (s : string) : sx list =
+  let rec go toks = match toks with [] -> [] | _ -> let (x, rest) = parse_one toks in x :: go rest in
+  go (tokenize s)
+
+let int_of_sx = function A a -> int_of_string a | _ -> failwith "int expected"
+let str_of_sx = function L l -> List.map (fun x -> z_of_int (int_of_sx x)) l | _ -> failwith "str expected"
+
+let rec val_of_sx = function
+  | A "n" -> VNone | A "u" -> VNull | A "e" -> VSent
+  | L [A "i"; x] -> VInt (z_of_int (int_of_sx x))
+  | L [A "b"; x] -> VBool (int_of_sx x <> 0)
+  | L [A "f"; x] -> VFlt (z_of_int (int_of_sx x))
+  | L (A "s" :: l) -> VStr (List.map (fun x -> z_of_int (int_of_sx x)) l)
+  | L [A "t"; x] -> VTy (z_of_int (int_of_sx x))
+  | L (A "T" :: l) -> VTup (List.map val_of_sx l)
+  | L (A "D" :: l) -> VDict (List.map kv_of_sx l)
+  | _ -> failwith "value expected"
+and kv_of_sx = function
+  | L [k; v] -> (str_of_sx k, val_of_sx v)
+  | _ -> failwith "pair expected"
+
+let show_str s = "(" ^ String.concat " " (List.map (fun z -> string_of_int (int_of_z z)) s) ^ ")"
+let rec show_val = function
+  | VNone -> "n" | VNull -> "u" | VSent -> "e"
+  | VInt z -> "(i " ^ string_of_int (int_of_z z) ^ ")"
+  | VBool b -> if b then "(b 1)" else "(b 0)"
+  | VFlt q -> "(f " ^ string_of_int (int_of_z q) ^ ")"
+  | VStr s -> "(s" ^ String.concat "" (List.map (fun z -> " " ^ string_of_int (int_of_z z)) s) ^ ")"
+  | VTy t -> "(t " ^ string_of_int (int_of_z t) ^ ")"
+  | VTup l -> "(T" ^ String.concat "" (List.map (fun v -> " " ^ show_val v) l) ^ ")"
+  | VDict l -> "(D" ^ String.concat "" (List.map (fun (k, v) -> " (" ^ show_str k ^ " " ^ show_val v ^ ")") l) ^ ")"
+let show_kmap m = "(" ^ String.concat " " (List.map (fun (k, v) -> "(" ^ show_str k ^ " " ^ show_val v ^ ")") m) ^ ")"
+
+(* a parameter: (name) or (name default) *)
+let param_of_sx = function
+  | L [k] -> (str_of_sx k, None)
+  | L [k; v] -> (str_of_sx k, Some (val_of_sx v))
+  | _ -> failwith "param expected"
+(* (sig (params...) varargs (kwonly...) varkw) *)
+let sig_of_sx = function
+  | L [L ps; va; L ks; vk] ->
+      { s_params = List.map param_of_sx ps; s_varargs = int_of_sx va <> 0;
+        s_kwonly = List.map param_of_sx ks; s_varkw = int_of_sx vk <> 0 }
+  | _ -> failwith "sig expected"
+(* ((pos...) ((name v)...)) *)
+let call_of_sx = function
+  | L [L pos; L kws] -> (List.map val_of_sx pos, List.map kv_of_sx kws)
+  | _ -> failwith "call expected"
+(* ignore spec: list of (n <str>) | (x <int>) *)
+let ign_of_sx = function
+  | L l -> List.map (function
+      | L [A "n"; s] -> IName (str_of_sx s)
+      | L [A "x"; i] -> IIdx (nat_of_int (int_of_sx i))
+      | _ -> failwith "ignore item expected") l
+  | _ -> failwith "ignore list expected"
+(* (typed flat mark) *)
+let kcfg_of_sx = function
+  | L [t; f; m] -> { k_typed = int_of_sx t <> 0; k_flat = int_of_sx f <> 0; k_mark = int_of_sx m <> 0 }
+  | _ -> failwith "kcfg expected"
+
+let handle (line : string) : bool =
+  let line = String.trim line in
+  let cmd, rest =
+    match String.index_opt line ' ' with
+    | Some i -> (String.sub line 0 i, String.sub line i (String.length line - i))
+    | None -> (line, "") in
+  match cmd with
+  | "k.bind" ->
+      (match parse_all rest with
+       | [sg; cl] ->
+           (match bind (sig_of_sx sg) (call_of_sx cl) with
+            | None -> print_string "none\n"
+            | Some b -> print_string ("some " ^ show_kmap b.b_named ^ " (T" ^
+                                      String.concat "" (List.map (fun v -> " " ^ show_val v) b.b_extra_pos) ^ ") " ^
+                                      show_kmap b.b_extra_kw ^ "\n"))
+       | _ -> print_string "error k.bind syntax\n");
+      true
+  | "k.keygen" ->
+      (match parse_all rest with
+       | [sg; ig; cl] ->
+           let (a, m) = keygen (sig_of_sx sg) (ign_of_sx ig) (call_of_sx cl) in
+           print_string ("(T" ^ String.concat "" (List.map (fun v -> " " ^ show_val v) a) ^ ") " ^ show_kmap m ^ "\n")
+       | _ -> print_string "error k.keygen syntax\n");
+      true
+  | "k.key" ->
+      (match parse_all rest with
+       | [sg; ig; kc; cl] ->
+           print_string (show_val (key_of (sig_of_sx sg) (ign_of_sx ig) (kcfg_of_sx kc) (call_of_sx cl)) ^ "\n")
+       | _ -> print_string "error k.key syntax\n");
+      true
+  | "k.eq" ->
+      (match parse_all rest with
+       | [a; b] -> print_string (if py_eqb (val_of_sx a) (val_of_sx b) then "1\n" else "0\n")
+       | _ -> print_string "error k.eq syntax\n");
+      true
+  | _ -> false
